@@ -264,6 +264,12 @@ struct interp
   Grammar const &g;
   std::string const &in;
   unsigned depth = 0;
+  // Work budget: PEG parsing without memoisation is exponential for some grammars (e.g. `!rule0 >> rule0`); the real
+  // parser has the same cost. A (grammar, input) pair whose reference evaluation exceeds the budget is skipped (and
+  // counted) BEFORE the real parser is run, so that the per-case watchdog only ever fires for genuine hangs.
+  std::uint64_t steps = 0;
+  bool too_expensive = false;
+  static constexpr std::uint64_t budget = 20000;
 
   std::size_t digits_end(std::size_t at) const
   {
@@ -293,6 +299,11 @@ struct interp
 
   R ev(Node const &n, std::size_t pos, SK sk)
   {
+    if (++steps > budget)
+    {
+      too_expensive = true;
+      return failr(true); // unwinds quickly: a fatal failure stops all backtracking
+    }
     auto kid = [&](std::size_t i, std::size_t at, SK s) { return ev(*n.ch[i], at, s); };
     switch (n.k)
     {
@@ -1006,6 +1017,11 @@ void run_world(char const *chname)
           }
         }
       }
+      if (I.too_expensive)
+      {
+        VF_COUNT("peg/skipped/pair-over-work-budget");
+        continue;
+      }
       // real: string entry point (alternating between phrase_parse_string and grammar_parse_string)
       auto rr = (ii % 2 == 0) ? p::phrase_parse_string(*real, Str(win), skipper) : p::grammar_parse_string(Str(win), as_grammar);
       bool rok = rr.has_success();
@@ -1042,6 +1058,8 @@ void run_world(char const *chname)
         interp I2{gr, in};
         auto s0 = skip_model(S, in, 0);
         R ref2 = s0 ? I2.ev(*gr.rules[0], *s0, S) : failr();
+        if (I2.too_expensive)
+          continue;
         if (r2.has_success() != ref2.ok)
           vf::violation("peg/stream-entry-point/outcome", "mismatch", "grammar: " + desc + " | input: \"" + in + "\"");
         else if (ref2.ok)
